@@ -176,9 +176,10 @@ def run(tier):
             payload = {"case": k, "outcome": e, "what": w}
             if w["k"] == "outcome":
                 for cl in sorted(w["wrong"]):
-                    v.violation("%s:%s" % (cl, ck), "clause '%s' violated by %s -> value %s, Errmsg %s%s, NaN partials %s / %s, deterministic %s" %
-                                (cl, call, e["val"], e["err"], (" (" + e["msg"] + ")") if e.get("msg") else "",
-                                 [i for i, x in enumerate(e["dn"]) if x], [i for i, x in enumerate(e["hn"]) if x], e["det"]), payload)
+                    v.violation("%s:%s" % (cl, ck), "clause '%s' violated by %s (derivs/hes pre-filled with %s) -> value %s, Errmsg %s%s, NaN partials %s / %s, unwritten partials %s / %s, deterministic %s" %
+                                (cl, call, "NaN" if e["fill"] == "nan" else "a sentinel", e["val"], e["err"], (" (" + e["msg"] + ")") if e.get("msg") else "",
+                                 [i for i, x in enumerate(e["dn"]) if x], [i for i, x in enumerate(e["hn"]) if x],
+                                 [i for i, x in enumerate(e["du"]) if x], [i for i, x in enumerate(e["hu"]) if x], e["det"]), payload)
             elif w["k"] == "noreturn":
                 v.violation("%s:%s" % (w["ev"].lower(), ck), "%s did not return: %s" % (call, json.dumps(e)[:200]), payload)
             else:
@@ -201,7 +202,7 @@ def run(tier):
         "evaluations": len(cases), "functions": len(funcs), "functions_with_integer_arguments": nint,
         "signatures": len(sigs), "prototype_unknown": unknown, "outcomes": outcomes, "tables": tables,
         "exhaustive": False,
-        "explanation": "all %d functions registered by the real amplgsl.cc through Addfunc (compiled against the funcadd.h shim and system libgsl); argument-class tuples x request modes enumerated by TLC per signature (GenFuncCall), %s; every call made twice in a forked child with NaN-prefilled derivs/hes; each (case, outcome) pair validated by TLC against FuncCall.tla. Decided: Errmsg=NULL => no NaN in value/requested partials; NaN argument, non-integer at an integer position, partial w.r.t. an integer argument => error; determinism (non-random functions); the call returns. NOT decided: agreement of derivatives with numerical differentiation." %
+        "explanation": "all %d functions registered by the real amplgsl.cc through Addfunc (compiled against the funcadd.h shim and system libgsl); argument-class tuples x request modes enumerated by TLC per signature (GenFuncCall), %s; every call made three times in a forked child (derivs/hes pre-filled with NaN, then twice with a sentinel); each (case, outcome) pair validated by TLC against FuncCall.tla. Decided: Errmsg=NULL => no NaN in value/requested partials; NaN argument, non-integer at an integer position, partial w.r.t. an integer argument => error; determinism (non-random functions); the call returns. NOT decided: agreement of derivatives with numerical differentiation." %
                        (len(funcs), "all of them with two concretisation tables" if tier == "thorough" else "a seeded sample of up to %d per function" % per_fn),
         "design_check": {"module": "MCFuncCall", "distinct_states": mc.distinct},
         "rejected": nbad, "rejected_by_clause": byclause, "violations_new": nnew,
